@@ -526,6 +526,10 @@ def judge(t, on, ot):
         # against 81.00000000000001 legitimately differ in kind
         if dk == 'kind' and rootop == '^' and inexact_child and vclose(_promote(a), _promote(b), RTOL, atol):
             return 'rounding', dk
+        # ... and its integer results are floating-point results converted afterwards (3^16 computed in float32 is
+        # 43046720): integers produced by ^ itself are compared with the tolerance
+        if dk == 'value' and rootop == '^' and vclose(_promote(a), _promote(b), RTOL, atol):
+            return 'rounding', dk
         return 'value', dk
     if on[2] is None or ot[2] is None:
         return 'write', 'raises'
@@ -579,6 +583,8 @@ def classify(t, status, detail, on, ot):
             return 'power-infinite-result-integer-conversion-raises'
         if ot[0] == 'exc' and 'numpy.ndarray' in ot[2]:
             return 'torch-power-scalar-base-returns-numpy-array'
+        if ot[0] == 'exc' and 'got (numpy.' in ot[2]:
+            return 'torch-wrapper-rejects-numpy-scalar-operand'
         if on[0] == 'exc' and ot[0] == 'exc':
             return 'accept-both-reject:%s/%s' % (on[1], ot[1])
         return 'accept-numpy-rejects:' + on[1] if on[0] == 'exc' else 'accept-torch-rejects:' + ot[1]
@@ -823,9 +829,12 @@ def run(cfg):
 
     if not cfg.quick:
         # ---- congruence of both class notions, measured on the complete level-2 product
+        dmap = {t: (d, st) for t, d, st in digs2}
+        ordered = [(t,) + dmap[t] for t in l2 if t in dmap]        # enumeration order, not completion order
+
         def contexts(col):
             seen, differ = {}, {}
-            for t, d, st in digs2:
+            for t, d, st in ordered:
                 key = (t[1], rec[t[2]][col]) if t[0] == 'u' else (t[1], rec[t[2]][col], rec[t[3]][col])
                 val = d if col == 0 else (st in ('clean', 'both_exc', 'one_exc', 'rounding', 'complex'))
                 if key in seen:
@@ -933,7 +942,9 @@ def run(cfg):
         'as single-precision rounding' % RTOL,
         'a disagreement in the numbers only, at a discontinuous operator (floor, < > =, ^, %, @ # _) one of whose operands '
         'already differs by rounding between the backends, is no verdict (rounding_through_discontinuity_no_verdict); for ^ '
-        'this includes integer-vs-real kind of numerically equal results (Power returns an integer when the result is whole)',
+        'this includes integer-vs-real kind of numerically equal results (Power returns an integer when the result is whole), '
+        'and integer results of a root ^ are compared with the tolerance (they are floating-point results converted '
+        'afterwards: 3^16 computed in float32 is 43046720); all other integers must be identical',
         'obligation 2 (acceptance) is applied to programs of the compiler grammar whose operands conform in shape and '
         'whose sub-programs are numeric; the statement read literally would also demand acceptance of [1 2 3]+[[1 2] [3 4]]',
         'a one-sided exception outside obligation 2 is no verdict ("whenever both return"): see one_sided',
